@@ -1160,6 +1160,14 @@ Error JitAllocator::query(Out<Span> out, void* rx) const noexcept {
   }
 
   uint32_t area_end = uint32_t(Support::bit_vector_index_of(block->_stop_bit_vector, area_start, true)) + 1;
+
+  // `rx` may point inside the span - walk back to its first granule (the granule before it is either unused or ends another span).
+  while (area_start != 0u &&
+         Support::bit_vector_get_bit(block->_used_bit_vector, area_start - 1u) &&
+         !Support::bit_vector_get_bit(block->_stop_bit_vector, area_start - 1u)) {
+    area_start--;
+  }
+
   size_t byte_offset = pool->byte_size_from_area_size(area_start);
   size_t byte_size = pool->byte_size_from_area_size(area_end - area_start);
 
